@@ -618,7 +618,15 @@ def d1_params(ctx):
     elif sm_bad is not None:
         ctx.violated('C12.D1', f, sm_bad, 'n_channels_dat is `%s`, not the sum over all probes' % unparse(sm_bad.value))
     else:
-        ctx.undecided('C12.D1', f, 'computation of the merged n_channels_dat not recognised')
+        # what IS stored as the merged n_channels_dat: when it is not derived from the per-probe `n_channels_dat` entries at all, it is another quantity
+        stores_ = [a for a in f.nodes(ast.Assign) if isinstance(a.targets[0], ast.Subscript) and const_value(a.targets[0].slice) == 'n_channels_dat']
+        src_ = f.expand(stores_[0].value, depth=8) if stores_ else None
+        from_params = src_ is not None and any(isinstance(n, ast.Subscript) and const_value(n.slice) == 'n_channels_dat' for n in ast.walk(src_))
+        if src_ is not None and not from_params and not isinstance(src_, ast.Name):
+            ctx.violated('C12.D1', f, stores_[0], 'the merged n_channels_dat is `%s`: it is not computed from the n_channels_dat of the probes\' parameter files (the raw channel counts), so a probe whose raw '
+                         'file has unmapped channels is declared too small' % unparse(src_)[:90])
+        else:
+            ctx.undecided('C12.D1', f, 'computation of the merged n_channels_dat not recognised')
     if mg is None or sm is None:
         ctx.undecided('C12.D1', f, 'construction of the merged params not recognised')
     else:
